@@ -144,7 +144,48 @@ def run_server_case(case, watchdog):
     return out, case['after'] >= 1
 
 
+def run_server_tls_case(case, watchdog):
+    """The client makes the server start a TLS handshake (tls_immediately or STARTTLS + 220) and then never takes part in it."""
+    queue = sm.CaptureQueue()
+    imm = case['how'] == 'immediate'
+    edge = SmtpEdge(None, queue, hostname='edge', command_timeout=CMD_T * 2, data_timeout=DATA_T * 2, context=server_ctx(),
+                    tls_immediately=imm)
+    a, b = gsocket.socketpair()
+    g = gevent.spawn(lambda: edge.handle(a, ('10.0.0.1', 1)))
+    out = []
+    t0 = time.time()
+    try:
+        w = Wire(b)
+        if not imm:
+            w.read_reply(timeout=2)
+            b.sendall(b'EHLO c.example\r\n')
+            w.read_reply(timeout=2)
+            b.sendall(b'STARTTLS\r\n')
+            w.read_reply(timeout=2)
+        if case['mode'] == 'partial':
+            b.sendall(b'\x16\x03\x01\x02\x00\x01\x00')       # the beginning of a ClientHello record, never completed
+        g.join(timeout=watchdog)
+        if not g.dead:
+            out.append(('C14:server-session-outlives-timeouts:tls-handshake',
+                        '%r: session still open %.1f s after the client stopped inside the TLS handshake (command timeout %.2f)'
+                        % (case, time.time() - t0, CMD_T * 2)))
+    except Exception as e:
+        out.append(('C14:harness-error', '%r: %r' % (case, e)))
+    finally:
+        if not g.dead:
+            g.kill(block=False)
+        for s_ in (a, b):
+            try:
+                s_.close()
+            except Exception:
+                pass
+    return out, True
+
+
 def server_cases():
+    for how in ('immediate', 'starttls'):
+        for mode in ('silent', 'partial'):
+            yield {'family': 'server-tls', 'how': how, 'mode': mode}
     for after in range(0, len(SERVER_SCRIPT)):
         for mode in ('silent', 'midline', 'trickle', 'pipelined-partial'):
             if mode == 'pipelined-partial' and after == 0:
@@ -166,7 +207,8 @@ def server_cases():
 # relay client side
 # =====================================================================================
 
-CLIENT_STAGES = ['connect', 'banner', 'EHLO', 'STARTTLS', 'EHLO2', 'AUTH', 'MAIL', 'RCPT', 'DATA', 'EOD', 'RSET', 'QUIT']
+CLIENT_STAGES = ['connect', 'banner', 'EHLO', 'STARTTLS', 'TLS-handshake', 'TLS-immediate', 'EHLO2', 'AUTH', 'MAIL', 'RCPT', 'DATA', 'EOD',
+                 'RSET', 'QUIT']
 
 
 class StallPeer(object):
@@ -196,6 +238,10 @@ class StallPeer(object):
         rej = c.get('reject')
         try:
             f = self.sock.makefile('rb')
+            if c['stage'] == 'TLS-immediate':
+                if c['mode'] == 'trickle':
+                    self.sock.sendall(b'\x16\x03\x03')          # looks like the start of a handshake record
+                gevent.sleep(3600)
             self.reply('banner', b'220 peer ready\r\n')
             nehlo = 0
             nrcpt = 0
@@ -210,7 +256,7 @@ class StallPeer(object):
                     exts = [b'8BITMIME']
                     if c['pipelining']:
                         exts.append(b'PIPELINING')
-                    if c['stage'] in ('STARTTLS', 'EHLO2') and nehlo == 1:
+                    if c['stage'] in ('STARTTLS', 'EHLO2', 'TLS-handshake') and nehlo == 1:
                         exts.append(b'STARTTLS')
                     if c['stage'] == 'AUTH':
                         exts.append(b'AUTH PLAIN')
@@ -218,6 +264,8 @@ class StallPeer(object):
                     self.reply('EHLO' if nehlo == 1 else 'EHLO2', text)
                 elif verb == b'STARTTLS':
                     self.reply('STARTTLS', b'220 go\r\n')
+                    if c['stage'] == 'TLS-handshake':
+                        gevent.sleep(3600)                       # the 220 was sent, the handshake never starts
                     self.sock = server_ctx().wrap_socket(self.sock, server_side=True)
                     f = self.sock.makefile('rb')
                 elif verb == b'AUTH':
@@ -276,7 +324,7 @@ def run_client_case(case, watchdog):
     cls = StaticLmtpRelay if case['kind'] == 'lmtp' else StaticSmtpRelay
     relay = cls('peer.example', 25, socket_creator=creator, context=client_ctx(), ehlo_as='relay.example',
                 connect_timeout=CMD_T, command_timeout=CMD_T, data_timeout=DATA_T,
-                credentials=('u', 'p') if case['stage'] == 'AUTH' else None,
+                credentials=('u', 'p') if case['stage'] == 'AUTH' else None, tls_immediately=(case['stage'] == 'TLS-immediate'),
                 idle_timeout=(1.0 if case['stage'] == 'RSET' else None))
     env = c11.make_env(case['nrcpt'], 't')
     got = AsyncResult()
@@ -324,7 +372,7 @@ def run_client_case(case, watchdog):
                 a.close()
             except Exception:
                 pass
-    return out, case['stage'] not in ('connect', 'banner')
+    return out, case['stage'] not in ('connect', 'banner', 'TLS-immediate')
 
 
 def run_client_idle_case(case, watchdog):
@@ -607,7 +655,7 @@ def other_cases():
         yield {'family': 'http', 'mode': mode}
 
 
-RUN = {'server': run_server_case, 'client': run_client_case, 'client-idle': run_client_idle_case, 'pipe': run_pipe_case,
+RUN = {'server': run_server_case, 'server-tls': run_server_tls_case, 'client': run_client_case, 'client-idle': run_client_idle_case, 'pipe': run_pipe_case,
        'http': run_http_case, 'http-reuse': run_http_reuse_case}
 
 
@@ -650,6 +698,9 @@ def replay(case):
                 return []
         elif fam == 'http' and case.get('mode') not in ('silent', 'trickle', 'trickle-headers'):
             return []
+        elif fam == 'server-tls':
+            if case.get('how') not in ('immediate', 'starttls') or case.get('mode') not in ('silent', 'partial'):
+                return []
         elif fam == 'http-reuse':
             if case.get('first') not in ('ok', 'error') or case.get('mode') not in ('silent', 'trickle'):
                 return []
